@@ -10,6 +10,7 @@ import Gribi.Drv.ChkDrv
 import Gribi.Drv.FluentDrv
 import Gribi.Drv.ClientDrv
 import Gribi.Drv.FaultDrv
+import Gribi.Drv.ReconDrv
 namespace Gribi.Drv
 open Gribi
 
@@ -45,6 +46,7 @@ structure SrvSt where
   flushedNIs : Option (List NI) := none
   fl : FlSt := {}
   cl : Cl.State := {}
+  rc : RcSt := {}
   deriving Inhabited
 
 def codeNum : Code → Nat
@@ -565,6 +567,9 @@ def srvLine (st : SrvSt) (ts : List Tok) : SrvSt :=
       let st := bump st
       (st.monfail "c10" "the server did not answer within the watchdog (hang)").diff "hang" "the implementation hung"
     else if c = "cf.obs" then { st with rs := faultLine st.rs ts }
+    else if c.startsWith "rc." then
+      let (rs, rc) := reconLine st.rs st.rc ts
+      { st with rs := rs, rc := rc }
     else if c.startsWith "chk." then { st with rs := chkLine st.rs ts }
     else if c.startsWith "cl." || c = "obs.cl" then
       let (rs, cl) := clientLine st.rs st.cl ts
